@@ -332,11 +332,11 @@ class WARCRecorder(object):
 
         journal_filename = self._warc_filename + '-wpullinc'
 
-        with open(journal_filename, 'w') as file:
-            file.write('wpull-journal-version:1\n')
-            file.write('offset:{}\n'.format(before_offset))
-
         try:
+            with open(journal_filename, 'w') as file:
+                file.write('wpull-journal-version:1\n')
+                file.write('offset:{}\n'.format(before_offset))
+
             with open_func(self._warc_filename, mode='ab') as out_file:
                 for data in record:
                     out_file.write(data)
@@ -351,7 +351,8 @@ class WARCRecorder(object):
 
             raise error
         finally:
-            os.remove(journal_filename)
+            if os.path.exists(journal_filename):
+                os.remove(journal_filename)
 
         after_offset = os.path.getsize(self._warc_filename)
 
